@@ -882,7 +882,7 @@ def run(rep):
                 if pq.kw_of(x, kw_) is not None:
                     added.append(f"pd.read_csv(.., {kw_}={_show(pq.kw_of(x, kw_))[:20]})")
     rep.check(not added, "R09.c", rel, "read_csv", "the table is parsed with the caller's options only (nothing is added to kwargs, no row / comment filtering keyword)",
-              "; ".join(sorted(set(added))[:3]), line=r.lineno)
+              "; ".join(sorted(set(added))[:3]), line=r.lineno, firm=True)
     return EXPLANATION
 
 
